@@ -118,6 +118,7 @@ def sig_digits(spec):
 
 def run(ctx, ck):
     m = ctx.model
+    prog = ctx.program
     ck.rule('R-KIND.int-conversion', '%d is fed integer-kind values only')
     ck.rule('R-PREC.float-conversion', 'float values written with >= 6 significant digits / format_float')
     ck.rule('R-DEP.same-complex', 'real, imaginary, magnitude, phase columns come from one complex value')
@@ -167,124 +168,183 @@ def run(ctx, ck):
     ck.floor('explicit float conversions in report writers', n_flt, 2)
 
     # ---------------------------------------------------------------- D3
+    # every printed row is obtained as a closed expression by the symbolic path walk (temporaries,
+    # helpers, nested functions looked through, loop variables bound to the element of what is
+    # iterated); the complex values whose parts appear in one row must be one and the same
+    from ..symx import SymExec, line_exprs
+    wq = {f.qual for f in writers if not f.name.startswith('_')}
     n_rows = 0
+    n_polar = 0
+    row_obs = {}
     for f in sorted(writers, key=lambda x: x.qual):
-        fl = None
-        for t in walk_no_nested(f.node):
-            if not isinstance(t, ast.Tuple):
+        try:
+            paths = SymExec(ctx, f, bind_loops=True, no_expand=wq).run()
+        except AnalysisError as e_:
+            raise AnalysisError('%s: %s' % (f.qual, e_))
+        for p_ in paths:
+            if p_.end == 'raise':
                 continue
-            re_ = [e for e in t.elts if isinstance(e, ast.Attribute) and e.attr == 'real']
-            im_ = [e for e in t.elts if isinstance(e, ast.Attribute) and e.attr == 'imag']
-            if len(re_) != 1 or len(im_) != 1 or len(t.elts) < 4:
-                continue
-            fl = fl or ctx.flow(f)
-            base = norm(re_[0].value)
-            ok = norm(im_[0].value) == base
-            base = norm(fl.inline(re_[0].value, fl.node_id_of(t), depth=3))
-            others = [e for e in t.elts if e is not re_[0] and e is not im_[0]]
-            srcs = []
-            for e in others:
-                ee = fl.inline(e, fl.node_id_of(t), depth=3)
-                for c in ast.walk(ee):
-                    if isinstance(c, ast.Call) and (dotted(c.func) or '') in ('np.abs', 'np.angle', 'abs'):
-                        srcs.append(norm(c.args[0]))
-            # loop-carried re-definitions (a = a / pi * 180) make inline stop at the name: resolve
-            if len(srcs) < 2:
-                for e in others:
-                    if isinstance(e, ast.Name):
-                        for d in fl.def_exprs(e.id, fl.node_id_of(t)):
-                            if d[0] == 'assign':
-                                for c in ast.walk(d[1]):
-                                    if isinstance(c, ast.Call) and (dotted(c.func) or '') in ('np.abs', 'np.angle'):
-                                        srcs.append(norm(c.args[0]))
-                                    if isinstance(c, ast.Name) and c.id == e.id:
-                                        for d2 in fl.def_exprs(e.id, d[2]):
-                                            if d2[0] == 'assign':
-                                                for c2 in ast.walk(d2[1]):
-                                                    if isinstance(c2, ast.Call) and (dotted(c2.func) or '') in ('np.abs', 'np.angle'):
-                                                        srcs.append(norm(c2.args[0]))
-            ok = ok and len(set(srcs)) == 1 and set(srcs) == {base} and len(srcs) >= 2
+            for e_, st_ in line_exprs(p_):
+                re_, im_, mag, ph = set(), set(), set(), set()
+                for n_ in ast.walk(e_):
+                    if isinstance(n_, ast.Attribute) and n_.attr == 'real':
+                        re_.add(norm(n_.value))
+                    elif isinstance(n_, ast.Attribute) and n_.attr == 'imag':
+                        im_.add(norm(n_.value))
+                    elif isinstance(n_, ast.Call) and (dotted(n_.func) or '') in ('np.abs', 'abs', 'np.absolute') and n_.args:
+                        mag.add(norm(n_.args[0]))
+                    elif isinstance(n_, ast.Call) and (dotted(n_.func) or '') in ('np.angle', 'cmath.phase') and n_.args:
+                        ph.add(norm(n_.args[0]))
+                if re_ and im_ and (mag or ph):
+                    ok = len(re_) == 1 and re_ == im_ and (not mag or mag == re_) and (not ph or ph == re_) \
+                        and bool(mag) and bool(ph)
+                    key = '%s|row(%s)' % (f.qual, sorted(re_)[0][:60])
+                    why = 'real/imag of %s; magnitude of %s; phase of %s' % (sorted(re_ | im_), sorted(mag), sorted(ph))
+                    prev = row_obs.get(key)
+                    if prev is None or (prev[0] and not ok):
+                        row_obs[key] = (ok, f.loc(st_), why, 'row')
+                elif mag and ph and not re_ and not im_:
+                    ok = mag == ph
+                    key = '%s|polar(%s)' % (f.qual, ','.join(sorted(mag | ph))[:80])
+                    why = 'magnitude of %s; phase of %s' % (sorted(mag), sorted(ph))
+                    prev = row_obs.get(key)
+                    if prev is None or (prev[0] and not ok):
+                        row_obs[key] = (ok, f.loc(st_), why, 'polar')
+    for key, (ok, where, why, kind) in sorted(row_obs.items()):
+        ck.ob('R-DEP.same-complex', key, ok, where, why)
+        if kind == 'row':
             n_rows += 1
-            ck.ob('R-DEP.same-complex', '%s|row(%s)' % (f.qual, base), ok, f.loc(t),
-                  'real/imag of %s; magnitude/phase of %s' % (base, sorted(set(srcs))))
+        else:
+            n_polar += 1
     ck.floor('complex rows (real, imag, magnitude, phase)', n_rows, 3)
-    g = m.func('mininec.Far_Field_Pattern.abs_gain_as_mininec')
-    pairs = {}
-    for s in g.body():
-        if isinstance(s, ast.Assign) and isinstance(s.value, (ast.Call, ast.BinOp)):
-            for c in ast.walk(s.value):
-                if isinstance(c, ast.Call) and (dotted(c.func) or '') in ('np.abs', 'np.angle'):
-                    pairs.setdefault(norm(c.args[0]), set()).add(dotted(c.func))
-    ok = pairs == {'self.e_theta': {'np.abs', 'np.angle'}, 'self.e_phi': {'np.abs', 'np.angle'}}
-    ck.ob('R-DEP.same-complex', g.qual, ok, g.loc(), 'magnitude and phase of each polarisation from the same array: %s' %
-          {k: sorted(v) for k, v in pairs.items()})
+    ck.floor('polar rows (magnitude, phase per polarisation)', n_polar, 1)
 
     # ---------------------------------------------------------------- D4
-    def one_call_per_iter(q, iter_txt, call_attr, recv_is_loopvar=True):
-        f = m.func(q)
-        fl = ctx.flow(f)
-        ls = [l for l in loops_in(f.node) if isinstance(l, ast.For) and norm(l.iter) == iter_txt and
-              any(isinstance(c, ast.Call) and isinstance(c.func, ast.Attribute) and c.func.attr == call_attr
-                  for c in ast.walk(l))]
-        ok = len(ls) >= 1
-        cnt = None
-        for l in ls:
-            lv = l.target.id if isinstance(l.target, ast.Name) else None
-            cnt = loop_reaches_on_all_paths(fl, l, lambda n: n.kind == 'stmt' and n.stmt is not None and any(
-                isinstance(c, ast.Call) and isinstance(c.func, ast.Attribute) and c.func.attr == call_attr
-                and (not recv_is_loopvar or norm(c.func.value) == lv) for c in ast.walk(n.stmt)))
-            ok = ok and cnt == (1, 1)
-        ck.ob('R-EXH.rows', '%s|for %s' % (q, iter_txt), ok, f.loc(ls[0] if ls else None),
-              'one %s() per element of %s: %s' % (call_attr, iter_txt, cnt))
-    one_call_per_iter('mininec.Mininec.wires_as_mininec', 'geobj.pulse_iter()', 'as_mininec')
-    one_call_per_iter('mininec.Mininec.sources_as_mininec', 'self.sources', 'as_mininec_short')
-    one_call_per_iter('mininec.Mininec.source_data_as_mininec', 'self.sources', 'as_mininec')
-    one_call_per_iter('mininec.Mininec.loads_as_mininec', 'self.loads', 'as_mininec')
-    one_call_per_iter('mininec._Load.as_mininec', 'self.pulses', 'append', recv_is_loopvar=False)
-    one_call_per_iter('mininec.Mininec.environment_as_mininec', 'enumerate(self.media)', 'as_mininec', recv_is_loopvar=False)
-    # geometry blocks: outer loop over all objects
+    # decided on the symbolic walk as well: one iteration of every loop, loop variables bound to the
+    # element (`self.loads[_k0]`), comprehension elements as _each(...), helper lists expanded
+    import re as _re
+    from ..symx import canon_k
+    _paths_cache = {}
+
+    def wpaths(q):
+        if q not in _paths_cache:
+            f_ = m.func(q)
+            _paths_cache[q] = [p_ for p_ in SymExec(ctx, f_, bind_loops=True, no_expand=wq).run() if p_.end != 'raise']
+        return _paths_cache[q]
+
+    def calls_on(p_, call_attr, recv_re):
+        n_ = 0
+        for e_, st_ in line_exprs(p_):
+            for c_ in ast.walk(e_):
+                if isinstance(c_, ast.Call) and isinstance(c_.func, ast.Attribute) and c_.func.attr == call_attr \
+                   and _re.search(recv_re, norm(c_.func.value)):
+                    n_ += 1
+        return n_
+
+    def one_call_per_element(q, iter_re, call_attr):
+        """on every path: one <element>.<call_attr>() line per element of the collection"""
+        f_ = m.func(q)
+        recv_re = iter_re + r'\[_k\d+\](\[1\])?$'
+        bad = None
+        n_entered = 0
+        strip = lambda t_: _re.sub(r'^enumerate\((.*)\)$', r'\1', t_)
+        for p_ in wpaths(q):
+            entered = [t_ for k_, t_ in p_.conds if k_ == 'loop' and _re.search(iter_re + '$', strip(t_))]
+            skipped = [t_ for k_, t_ in p_.conds if k_ == 'loop-skipped' and _re.search(iter_re + '$', strip(t_))]
+            comp = [it_ for e_, st_, it_ in line_exprs(p_, with_iter=True)
+                    if it_ is not None and _re.search(iter_re + '$', strip(norm(it_)))]
+            if entered and skipped:
+                continue            # the same collection empty and not empty: not a real path
+            n_ = calls_on(p_, call_attr, recv_re)
+            want_ = 1 if (entered or comp) else 0
+            n_entered += want_
+            if n_ != want_ and bad is None:
+                bad = (n_, want_, [c_ for c_ in p_.conds][-3:])
+        ok = bad is None and n_entered >= 1
+        ck.ob('R-EXH.rows', '%s|for %s' % (q, iter_re.replace('\\', '')), ok, f_.loc(),
+              'one %s() per element on each of %d paths' % (call_attr, len(wpaths(q))) if ok else
+              '%s() written %s times per element instead of %s on the path %s' % ((call_attr,) + (bad or (0, 1, 'none'))))
+    one_call_per_element('mininec.Mininec.wires_as_mininec', r'\.pulse_iter\(\)', 'as_mininec')
+    one_call_per_element('mininec.Mininec.sources_as_mininec', r'self\.sources', 'as_mininec_short')
+    one_call_per_element('mininec.Mininec.source_data_as_mininec', r'self\.sources', 'as_mininec')
+    one_call_per_element('mininec.Mininec.loads_as_mininec', r'self\.loads', 'as_mininec')
+    one_call_per_element('mininec.Mininec.environment_as_mininec', r'self\.media', 'as_mininec')
+    # a load prints one line per attached pulse
+    q = 'mininec._Load.as_mininec'
+    bad = None
+    for p_ in wpaths(q):
+        ent = any(k_ == 'loop' and t_ == 'self.pulses' for k_, t_ in p_.conds)
+        skp = any(k_ == 'loop-skipped' and t_ == 'self.pulses' for k_, t_ in p_.conds)
+        n_ = sum(1 for e_, st_ in line_exprs(p_) if 'self.pulses[_k' in norm(e_))
+        if n_ != (0 if (skp and not ent) else 1):
+            bad = (n_, p_.conds[-2:])
+    ck.ob('R-EXH.rows', q + '|for self.pulses', bad is None, m.func(q).loc(),
+          'one line per attached pulse' if bad is None else 'lines per pulse: %s on path %s' % bad)
+    # geometry blocks: outer loops over all objects (statement or comprehension form, helpers included)
+    from ..rules import self_closure
+
+    def n_iterations_of(q, iter_txt):
+        n_ = 0
+        for g_ in self_closure(ctx, m.func(q)):
+            if g_.qual in wq and g_.qual != q:
+                continue
+            for x_ in walk_no_nested(g_.node):
+                if isinstance(x_, ast.For) and norm(x_.iter) == iter_txt:
+                    n_ += 1
+                elif isinstance(x_, ast.comprehension) and norm(x_.iter) == iter_txt:
+                    n_ += 1
+        return n_
     f = m.func('mininec.Mininec.wires_as_mininec')
-    outer = [l for l in loops_in(f.node) if isinstance(l, ast.For) and norm(l.iter) == 'self.geo']
-    ck.ob('R-EXH.rows', f.qual + '|objects', len(outer) == 2, f.loc(), 'object table and pulse table iterate all of self.geo')
+    ck.ob('R-EXH.rows', f.qual + '|objects', n_iterations_of(f.qual, 'self.geo') == 2, f.loc(),
+          'object table and pulse table iterate all of self.geo')
     f = m.func('mininec.Mininec.currents_as_mininec')
-    outer = [l for l in loops_in(f.node) if isinstance(l, ast.For) and norm(l.iter) == 'self.geo']
-    ck.ob('R-EXH.rows', f.qual + '|objects', len(outer) == 1, f.loc(), 'current table iterates all of self.geo')
-    # counts announced = len
-    for q, txt in (('mininec.Mininec.sources_as_mininec', 'len(self.sources)'),
-                   ('mininec.Mininec.wires_as_mininec', 'len(self.geo)')):
+    ck.ob('R-EXH.rows', f.qual + '|objects', n_iterations_of(f.qual, 'self.geo') == 1, f.loc(),
+          'current table iterates all of self.geo')
+    # counts announced
+    for q, label, want_ in (('mininec.Mininec.sources_as_mininec', 'NO. OF SOURCES', 'len(self.sources)'),
+                            ('mininec.Mininec.wires_as_mininec', 'NO. OF GEO-OBJECTS', 'len(self.geo)'),
+                            ('mininec.Mininec.loads_as_mininec', 'NUMBER OF LOADS', 'sum(_each(len(self.loads[_k0].pulses), self.loads))')):
         f = m.func(q)
-        ok = any(txt in norm(s) for s in f.body())
-        ck.ob('R-EXH.rows', q + '|count', ok, f.loc(), 'announced count is %s' % txt)
-    f = m.func('mininec.Mininec.loads_as_mininec')
-    acc = [s for s in walk_no_nested(f.node) if isinstance(s, ast.AugAssign) and norm(s.value) == 'len(l.pulses)']
-    ck.ob('R-EXH.rows', f.qual + '|count', len(acc) == 1, f.loc(), 'NUMBER OF LOADS = sum of loaded pulses')
+        got = set()
+        npaths = 0
+        for p_ in wpaths(q):
+            npaths += 1
+            hit = [canon_k(norm(e_)) for e_, st_ in line_exprs(p_)
+                   if any(isinstance(c_, ast.Constant) and isinstance(c_.value, str) and label in c_.value for c_ in ast.walk(e_))]
+            got.add(tuple(want_ in h_ for h_ in hit))
+        ok = got == {(True,)}
+        ck.ob('R-EXH.rows', q + '|count', ok, f.loc(), 'line "%s" announces %s on all %d paths' % (label, want_, npaths)
+              if ok else 'line "%s" does not announce %s on every path: %s' % (label, want_, sorted(got)))
     # sections of the report
     f = m.func('mininec.Mininec.as_mininec')
-    fl = ctx.flow(f)
     secs = ['header_as_mininec', 'frequency_as_mininec', 'environment_as_mininec', 'wires_as_mininec',
             'sources_as_mininec', 'loads_as_mininec', 'source_data_as_mininec', 'currents_as_mininec',
             'fields_as_mininec']
     for sname in secs:
-        cs = calls_in(f.node, attr=sname)
-        ok = len(cs) == 1 and fl.cfg.must_pass(fl.cfg.exit.id, {fl.node_id_of(cs[0])})
-        ck.ob('R-EXH.rows', '%s|section %s' % (f.qual, sname), ok, f.loc(cs[0] if cs else None),
-              'section written exactly once on every path')
+        counts = sorted({calls_on(p_, sname, r'^self$') for p_ in wpaths(f.qual)})
+        ck.ob('R-EXH.rows', '%s|section %s' % (f.qual, sname), counts == [1], f.loc(),
+              'section written exactly once on every path' if counts == [1] else
+              'section written %s times depending on the path' % counts)
     # format_float: characters may only be cut from a text that has a decimal point (cutting an
     # integer text drops significant digits: 227364204 -> 22736420)
     ck.rule('R-FMT.truncate-guard', 'format_float only truncates texts that contain a decimal point')
     ff = m.func('util.format_float')
-    cuts = [s_ for s_ in walk_no_nested(ff.node) if isinstance(s_, ast.Assign) and
-            isinstance(s_.value, ast.Subscript) and isinstance(s_.value.slice, ast.Slice) and
-            s_.value.slice.upper is not None and isinstance(s_.targets[0], ast.Name) and
-            norm(s_.value.value) == s_.targets[0].id]
-    ck.floor('truncating slices in format_float', len(cuts), 1)
-    ffl = ctx.flow(ff)
     from ..cfg import if_chain_preds
-    for c_ in cuts:
-        v = c_.targets[0].id
-        g = [t for t, b in if_chain_preds(ffl.cfg, ffl.node_id_of(c_)) if b]
+    cuts = []
+    for q_ in sorted(prog.closure([ff], edge_filter=lambda e: e.kind == 'call' and e.callee.module is ff.module)):
+        g_ = m.funcs[q_]
+        for x_ in walk_no_nested(g_.node):
+            if isinstance(x_, ast.Subscript) and isinstance(x_.slice, ast.Slice) and x_.slice.upper is not None \
+               and isinstance(x_.value, ast.Name) and isinstance(x_.ctx, ast.Load):
+                cuts.append((g_, x_))
+    ck.floor('truncating slices in format_float', len(cuts), 1)
+    for g_, c_ in cuts:
+        gfl_ = ctx.flow(g_)
+        v = c_.value.id
+        st_ = enclosing_stmt(c_)
+        g = [t for t, b in if_chain_preds(gfl_.cfg, gfl_.node_id_of(st_)) if b]
         ok = ("'.' in %s" % v) in g
-        ck.ob('R-FMT.truncate-guard', 'util.format_float|%s' % norm(c_), ok, ff.loc(c_),
+        ck.ob('R-FMT.truncate-guard', '%s|%s' % (ff.qual, norm(c_)), ok, g_.loc(c_),
               'truncation %s under guards %s' % (norm(c_), g) if ok else
               'truncation %s is not guarded by a decimal-point test (guards %s): integers of more than '
               '8 digits lose trailing digits' % (norm(c_), g))
